@@ -1,6 +1,7 @@
 import DracoModel.Proto
 import DracoModel.SeqDecoder
 import DracoModel.Spec
+import Ops.Metadata
 /- op handlers for whole-stream decoding -/
 namespace Draco.Ops
 open Draco Draco.Proto
@@ -10,7 +11,11 @@ def skipOf (s : String) : List Nat :=
 
 def decResultText (bs : Bytes) (r : Option DecodeResult × DSt) : String :=
   match r with
-  | (some res, st) => s!"ok {bs.length - st.rest.length} {res.geometry.toText}"
+  | (some res, st) =>
+    let md := match res.metadata with
+      | some g => " meta " ++ dumpGeometryMetadata g
+      | none => ""
+    s!"ok {bs.length - st.rest.length} {res.geometry.toText}{md}"
   | (none, st) =>
     match st.status with
     | .unknownVersion => "err-version"
